@@ -25,6 +25,9 @@ class SyncExecutor(CanCustomizeBind, Executor):
         self._shutdown = ShutdownHelper()
         metrics.EXEC_TOTAL.labels(type="sync", executor=self._name).inc()
         metrics.EXEC_INPROGRESS.labels(type="sync", executor=self._name).inc()
+        self._shutdown.dec_when_dropped(
+            self, metrics.EXEC_INPROGRESS.labels(type="sync", executor=self._name)
+        )
 
     def shutdown(self, wait=True, **_kwargs):
         if self._shutdown():
